@@ -202,6 +202,27 @@ def _():
             match = None
         if not match:""")
 
+@fix("D32", "fix: the '>=V+local meets V' special case must not fire for a version that carries the local label itself")
+def _():
+    sub("constraints/version/version_range.py",
+        """            return (
+                self.min is not None and self.min.is_local() and other.allows(self.min)
+            )""",
+        """            return (
+                self.min is not None
+                and self.min.is_local()
+                and not other.is_local()
+                and other.allows(self.min)
+            )""")
+    sub("constraints/version/version_range.py",
+        """            if self.min is not None and self.min.is_local() and other.allows(self.min):""",
+        """            if (
+                self.min is not None
+                and self.min.is_local()
+                and not other.is_local()
+                and other.allows(self.min)
+            ):""")
+
 def main():
     id_ = sys.argv[1]
     msg, f = FIXES[id_]
